@@ -293,8 +293,26 @@ func runC19(c *core.Ctx) {
 	c.Check(okConv, "R4", "Comparable/sign-convention", "sortDescriptor.go", "all implementations map (recv<arg, =, >) to "+strings.Join(descr, " "), "Comparable implementations disagree on the sign of CompareTo (or it is not antisymmetric): "+strings.Join(descr, " ")+" - string and numeric keys sort in opposite directions")
 	cmpFn := p.Func(p.Fpgo, "_compareBySortDescriptors")
 	sbd := p.Func(p.Fpgo, "SortBySortDescriptors")
-	if cmpFn == nil || sbd == nil || len(sbd.AnonFuncs) != 1 {
-		c.Unknown("R4", "descriptor-comparator", "-", "_compareBySortDescriptors / SortBySortDescriptors closure not found")
+	// the comparator SortBySortDescriptors hands to Sort: a closure, a bound method or a named function
+	var sbdCmp *ssa.Function
+	var sbdFV *core.FuncVal
+	if sbd != nil {
+		sortFn := p.Func(p.Fpgo, "Sort")
+		n := 0
+		core.Instrs(sbd, func(ins ssa.Instruction) {
+			if call, isC := ins.(*ssa.Call); isC && sortFn != nil && core.Callee(&call.Call) == sortFn && len(call.Call.Args) == 2 {
+				n++
+				if fv := core.ResolveFuncValue(p, call.Call.Args[0]); fv != nil && len(fv.Fn.Params) >= 2 {
+					sbdCmp, sbdFV = fv.Fn, fv
+				}
+			}
+		})
+		if n != 1 {
+			sbdCmp = nil
+		}
+	}
+	if cmpFn == nil || sbd == nil || sbdCmp == nil {
+		c.Unknown("R4", "descriptor-comparator", "-", "_compareBySortDescriptors / the comparator SortBySortDescriptors hands to Sort not found")
 		return
 	}
 	c.Analysed(core.FuncName(cmpFn), core.FuncName(sbd))
@@ -302,7 +320,8 @@ func runC19(c *core.Ctx) {
 		ok, detail := c19descriptor(p, cmpFn, sign)
 		c.Check(ok, "R4", "_compareBySortDescriptors/orientation", p.Pos(cmpFn.Pos()), detail, detail)
 		// final test in the closure of SortBySortDescriptors
-		cl := sbd.AnonFuncs[0]
+		cl := sbdCmp
+		np := len(cl.Params)
 		okF, dF := false, "comparator closure does not test the comparison result against 0"
 		core.Instrs(cl, func(ins ssa.Instruction) {
 			r, isR := ins.(*ssa.Return)
@@ -318,10 +337,13 @@ func runC19(c *core.Ctx) {
 				return
 			}
 			// arguments: (item1, item2, descriptors, 0)
-			argsOK := call.Call.Args[0] == ssa.Value(cl.Params[0]) && call.Call.Args[1] == ssa.Value(cl.Params[1]) && core.IsIntConst(call.Call.Args[3], 0)
+			argsOK := call.Call.Args[0] == ssa.Value(cl.Params[np-2]) && call.Call.Args[1] == ssa.Value(cl.Params[np-1]) && core.IsIntConst(call.Call.Args[3], 0)
+			descrOK := core.Unwrap(core.Resolve(sbdFV.Outer(call.Call.Args[2]))) == ssa.Value(sbd.Params[0])
 			switch {
 			case !argsOK:
 				dF = "the comparator does not compare (item1, item2) starting at descriptor 0"
+			case !descrOK:
+				dF = "the comparator does not walk the descriptor list SortBySortDescriptors was given"
 			case b.Op == token.GTR && sign > 0, b.Op == token.LSS && sign < 0:
 				okF, dF = true, fmt.Sprintf("strict test %s 0 matches the convention (CompareTo = %d when receiver < argument)", b.Op, sign)
 			case b.Op == token.GEQ || b.Op == token.LEQ:
@@ -596,11 +618,17 @@ func c19recursion(p *core.Prog, f *ssa.Function) (bool, string) {
 	}
 	// its verdict is returned
 	ret := false
-	core.Instrs(f, func(ins ssa.Instruction) {
-		if r, ok := ins.(*ssa.Return); ok && core.RetVals(r)[0] == ssa.Value(rec) {
-			ret = true
+	for _, rcase := range core.ReturnCases(f) {
+		if core.Resolve(rcase.Vals[0]) != ssa.Value(rec) {
+			continue
 		}
-	})
+		// the case is the one that passed through the recursive call
+		for _, b := range rcase.Via {
+			if b == rec.Block() || rec.Block().Dominates(b) {
+				ret = true
+			}
+		}
+	}
 	if !ret {
 		return false, "the verdict of the next descriptor is not returned"
 	}
